@@ -105,7 +105,7 @@ def numeral_queries(scratch, pid):
     info, rules = _rules(scratch)
     q = rx.Q()
     w = z3.String("w")
-    NUM = z3.Concat(z3.Option(z3.Re("-")), z3.Plus(rx.DIGIT))
+    NUM = z3.Concat(z3.Option(z3.Re("-")), z3.Plus(rx.DIGIT), z3.Option(z3.Concat(z3.Re("."), z3.Plus(rx.DIGIT))))
     names = [r[0] for r in rules]
     out = []
     bad = None
@@ -119,15 +119,15 @@ def numeral_queries(scratch, pid):
     ans, model = q.check(f"{pid}.rx/numeral/t_ID", z3.InRe(w, NUM), z3.Length(w) <= 20, z3.Not(z3.InRe(w, z)), model_of=[w])
     wit, wm = q.check(f"{pid}.rx/numeral/witness", z3.InRe(w, NUM), z3.Length(w) == 19, z3.InRe(w, z), model_of=[w])
     oid = f"{pid}.rx/numeral-is-one-ID"
-    bounds = "numerals -?[0-9]+ of length <= 20: no earlier rule matches a prefix, t_ID matches the whole word"
+    bounds = "integer and decimal numerals -?[0-9]+(\\.[0-9]+)? of length <= 20: no earlier rule matches a prefix, t_ID matches the whole word"
     n = len(q.log)
     if bad is None and ans == "unsat" and wit == "sat":
         out.append(rec(oid, "discharged", q, bounds, witness=wm, _n=n))
     else:
         word = (bad[2] or {}).get("w") if bad else (model or {}).get("w")
-        ddl = f"CREATE SEQUENCE q START {word} ;"
+        ddl = f"CREATE TABLE t ( a decimal ( 9 , 3 ) DEFAULT {word} , b int ) ;"
         got = _api(scratch, ddl)
-        ok = isinstance(got, list) and got and got[0].get("start") == int(word) if word and word.lstrip("-").isdigit() else True
+        ok = isinstance(got, list) and got and str(got[0]["columns"][0].get("default")) == str(int(word) if word.lstrip("-").isdigit() else word) if word else True
         out.append(rec(oid, "inconclusive" if ok else "violation", q, bounds, counterexample={"word": word, "ddl": ddl, "got": got, "reproduced": not ok}, _n=n))
     return out
 
